@@ -215,6 +215,8 @@ func loadModule(dir string, tests bool, patterns []string, extraEnv ...string) (
 			}
 		}
 	}
+	m.canonTypes()
+	m.canonFields()
 	return m, nil
 }
 
@@ -282,7 +284,7 @@ func (m *Module) fnOpt(pkg, name string) *ssa.Function {
 }
 
 func (m *Module) named(pkg, typ string) *types.Named {
-	o := m.pkg(pkg).Pkg.Scope().Lookup(typ)
+	o := m.pkg(pkg).Pkg.Scope().Lookup(m.curType(pkg, typ))
 	if o == nil {
 		panic(anchorErr{fmt.Sprintf("anchor type not found: %s.%s", pkg, typ)})
 	}
@@ -318,7 +320,7 @@ func (m *Module) methodOpt(pkg, typ, name string) *ssa.Function {
 	if m.SSA[pkg] == nil {
 		return nil
 	}
-	o := m.SSA[pkg].Pkg.Scope().Lookup(typ)
+	o := m.SSA[pkg].Pkg.Scope().Lookup(m.curType(pkg, typ))
 	if o == nil {
 		return nil
 	}
